@@ -249,6 +249,10 @@ func (it *Interp) methodValue(recv Value, fn *types.Func, pos token.Pos) Value {
 		switch name {
 		case "Len":
 			return nat(name, func(it *Interp, a []Value) ([]Value, error) { return []Value{len(r.Vars)}, nil })
+		case "String":
+			return nat(name, func(it *Interp, a []Value) ([]Value, error) {
+				return []Value{HoleT(it.newHole(&Hole{Kind: "tuplestr", Class: "Paren", Desc: "String(" + r.Desc + ")", Args: []Value{r}}))}, nil
+			})
 		case "At":
 			return nat(name, func(it *Interp, a []Value) ([]Value, error) {
 				i := a[0].(int)
@@ -350,10 +354,21 @@ func (it *Interp) symTypeMethod(t *SymType, name string, pos token.Pos) Value {
 			return []Value{f.ChanDir}, nil
 		case "String":
 			return []Value{HoleT(it.newHole(&Hole{Kind: "typestr", Class: "TypeText", Desc: "String(" + t.String() + ")", Type: t}))}, nil
+		case "At":
+			if it.fact(t).Kind == KTuple {
+				tup := it.tupleOf(t, "Results")
+				i, _ := a[0].(int)
+				if i < 0 || i >= len(tup.Vars) {
+					it.event("panic", pos, fmt.Sprintf("Tuple.At(%d) out of range (len %d)", i, len(tup.Vars)))
+					panic(abortRun{"generator panic"})
+				}
+				return []Value{tup.Vars[i]}, nil
+			}
 		case "Len":
 			f := it.fact(t)
 			if f.Kind == KTuple {
-				return nil, fmt.Errorf("Len of a symbolic tuple type")
+				// a tuple type (the type of a multi-valued call used as an argument)
+				return []Value{len(it.tupleOf(t, "Results").Vars)}, nil
 			}
 			if f.ArrayLen == nil {
 				f.ArrayLen = it.newHole(&Hole{Kind: "arraylen", Class: "IntLit", Desc: "Len(" + t.R().Desc + ")"})
